@@ -72,3 +72,70 @@ func H_C15_identical_structs() {
 	oneLengthClass(f1)
 	symx.Assert(f1 == hashWithStruct(s2, s2.Field(0)), "identical struct types get identical field names")
 }
+
+// C15-K2: a field of an instantiated generic struct gets the name of the same
+// field of the struct type written out by hand, which is an identical type
+// (conversions between the two compile). garble names the former through the
+// generic origin (recordFieldToStruct + Origin), the latter directly.
+func H_C15_generic_instances() {
+	flagSeed = seedFlag{bytes: []byte("12345678")}
+	symx.DigestClass(neededSumBytes, maxHashLength-minHashLength+1, 0)
+	pkg := types.NewPackage("example.com/a", "a")
+	named := types.NewNamed(types.NewTypeName(token.NoPos, pkg, "N", nil), types.Typ[types.Int], nil)
+	tp := types.NewTypeParam(types.NewTypeName(token.NoPos, pkg, "T", nil), types.Universe.Lookup("any").Type())
+	fname := asciiIdent("field", 1)
+	symx.Assume(fname != "n" && fname != "_")
+	second := symx.Choose(2) == 1 // the type parameter in the second field instead of the first
+	mk := func(t types.Type) *types.Struct {
+		fa := types.NewField(token.NoPos, pkg, fname, t, false)
+		fb := types.NewField(token.NoPos, pkg, "n", types.Typ[types.Int], false)
+		if second {
+			fa = types.NewField(token.NoPos, pkg, fname, types.Typ[types.Int], false)
+			fb = types.NewField(token.NoPos, pkg, "n", t, false)
+		}
+		return types.NewStruct([]*types.Var{fa, fb}, nil)
+	}
+	box := types.NewNamed(types.NewTypeName(token.NoPos, pkg, "Box", nil), nil, nil)
+	box.SetTypeParams([]*types.TypeParam{tp})
+	box.SetUnderlying(mk(tp))
+	args := []types.Type{
+		types.Typ[types.Int],
+		types.Typ[types.String],
+		types.NewSlice(types.Typ[types.Byte]),
+		types.NewPointer(types.Typ[types.Int]),
+		types.NewMap(types.Typ[types.String], types.Typ[types.Int]),
+		types.NewSignatureType(nil, nil, nil, nil, nil, false),
+		types.NewStruct(nil, nil),
+		named,
+		types.NewPointer(named),
+		types.NewArray(types.Typ[types.Int], 2),
+		types.NewChan(types.SendRecv, types.Typ[types.Bool]),
+	}
+	arg := args[symx.Choose(len(args))]
+	inst, err := types.Instantiate(nil, box, []types.Type{arg}, false)
+	if err != nil {
+		symx.Fail("instantiate: " + err.Error())
+		return
+	}
+	is := inst.Underlying().(*types.Struct)
+	lit := mk(arg)
+	symx.Reach("instantiated")
+	if !types.Identical(is, lit) {
+		symx.Fail("go/types does not consider the instantiated struct and the hand-written one identical")
+		return
+	}
+	done := make(map[*types.Named]bool)
+	fieldToStruct := make(map[*types.Var]*types.Struct)
+	recordFieldToStruct(inst, done, fieldToStruct)
+	recordFieldToStruct(lit, done, fieldToStruct)
+	for k := 0; k < 2; k++ {
+		fi, fl := is.Field(k).Origin(), lit.Field(k).Origin()
+		si, sl := fieldToStruct[fi], fieldToStruct[fl]
+		symx.Assert(si != nil && sl != nil, "every field is recorded under a struct")
+		if si == nil || sl == nil {
+			return
+		}
+		symx.Assert(hashWithStruct(si, fi) == hashWithStruct(sl, fl), "a field of an instantiated generic struct and of the identical hand-written struct get the same name")
+	}
+	symx.Reach("named")
+}
